@@ -362,6 +362,14 @@ fn exec_inner(ctx: &Arc<Ctx>, op: &OpSpec, slots: &mut Slots) -> i64 {
             let waker       = task::waker(Arc::new(FlagWaker { sched: ctx.sched, flag, fut: op.f }));
             let mut context = Context::from_waker(&waker);
 
+            // (the future of suspend() leaves the resumer behind when it resolves)
+            if let Some(Slot::SuspendFut(f)) = slots.slots.get_mut(&op.f) {
+                return match f.as_mut().poll(&mut context) {
+                    Poll::Ready(Some(resumer))  => { ctx.sched.obs("resolved", op.f, 0); slots.slots.insert(op.f, Slot::Resumer(resumer)); 0 }
+                    Poll::Ready(None)           => { ctx.sched.obs("resolved", op.f, 4); slots.slots.remove(&op.f); 4 }
+                    Poll::Pending               => 5
+                };
+            }
             let (code, done) = match slots.slots.get_mut(&op.f) {
                 Some(Slot::Sched(f, expected))  => match f.poll_unpin(&mut context) { Poll::Ready(r) => (code_of(r, *expected), true), Poll::Pending => (5, false) },
                 Some(Slot::Code(f, _))          => match f.as_mut().poll(&mut context) { Poll::Ready(code) => (code, true), Poll::Pending => (5, false) },
@@ -373,7 +381,8 @@ fn exec_inner(ctx: &Arc<Ctx>, op: &OpSpec, slots: &mut Slots) -> i64 {
 
         "dropf" | "detach" => {
             // The drop is the cancellation request: it is recorded before the future is destroyed
-            ctx.sched.obs("dropped", op.f, 0);
+            // (a suspend future that has already resolved left the resumer in the slot: dropping that is drop_resumer)
+            if let Some(Slot::Resumer(_)) = slots.slots.get(&op.f) { ctx.sched.obs("resume", op.f, 0); } else { ctx.sched.obs("dropped", op.f, 0); }
             match slots.slots.remove(&op.f) {
                 Some(Slot::Sched(f, _)) => { if op.k == "detach" { f.detach() } else { std::mem::drop(f) } }
                 Some(Slot::Code(f, keep)) => { std::mem::drop(f); std::mem::drop(keep); }
